@@ -13,6 +13,7 @@ def parseOp? (t : String) : Option Op :=
   | ["c", s] => do pure (.commit (← s.toNat?))
   | ["f", s] => do pure (.tryflush (← s.toNat?))
   | ["r", s] => do pure (.rollback (← s.toNat?))
+  | ["n", s] => do pure (.nested (← s.toNat?))
   | _ => none
 
 def parseOps? (s : String) : Option (List Op) :=
@@ -42,6 +43,38 @@ def showOut (n : Nat) : Out × St → String
 
 def b01 (b : Bool) : String := if b then "1" else "0"
 
+/-! The model keeps its state in functions (`Nat → …`), each step wrapping the previous ones:
+    evaluated naively a lookup after `m` commits costs `2^m`.  The driver therefore tabulates
+    the state on the finite domain of the run (primary keys `< n`, sessions `< ns`) after every
+    step; outside that domain the original function is kept (never asked for).  This is an
+    evaluation strategy of the driver only: `freeze` is pointwise the identity. -/
+
+def lookupArr {α : Type} (arr : Array α) (f : Nat → α) (k : Nat) : α :=
+  if h : k < arr.size then arr[k] else f k
+
+/-- the arrays are `let` values of a function returning a structure: computed once, here -/
+def freeze (n ns : Nat) (st : St) : St :=
+  let dbA := (Array.range n).map st.db
+  let sessA := (Array.range ns).map (fun s => (Array.range n).map (st.sess s))
+  let txnA := (Array.range ns).map st.txn
+  let spA := (Array.range ns).map st.sp
+  let edA := (Array.range n).map st.everDel
+  { st with
+    db := lookupArr dbA st.db
+    sess := fun s => if h : s < sessA.size then lookupArr sessA[s] (st.sess s) else st.sess s
+    txn := lookupArr txnA st.txn
+    sp := lookupArr spA st.sp
+    everDel := lookupArr edA st.everDel }
+
+/-- `runOut` / `run` of the model with the state tabulated after every step -/
+def runFrozen (c : Cfg) (ns : Nat) (st : St) : List Op → List (Out × St) × St
+  | [] => ([], st)
+  | o :: os =>
+    let r := step c st o
+    let st' := freeze c.npk ns r.1
+    let rest := runFrozen c ns st' os
+    ((r.2, st') :: rest.1, rest.2)
+
 /-- `run <c|f> <eoc 0|1> <npk> <nsess> <ops>` -/
 def handle : List String → String
   | ["run", g, eoc, npk, nsess, ops] =>
@@ -51,8 +84,7 @@ def handle : List String → String
     | some g, some e, some n, some ns, some os =>
       let c : Cfg := ⟨g, e, n⟩
       if os.all (opOk c ns) then
-        let outs := runOut c St.init os
-        let fin := run c St.init os
+        let (outs, fin) := runFrozen c ns St.init os
         ";".intercalate (outs.map (showOut n)) ++ " L" ++ b01 fin.lost ++ "R" ++ b01 fin.reins
       else "bad-op"
     | _, _, _, _, _ => "bad-op"
